@@ -141,6 +141,41 @@ func HarnessC05Literal() {
 	verif.Assert(l2.String() == txt, "C05/literal/reprint")
 }
 
+// C05 (c-bounded): what a bounded builder builds it also parses back: text
+// and blob literals of up to MAX+1 symbolic bytes against NewBoundedBuilder(MAX)
+// - Build and Parse accept exactly the same sizes (the bound included), and an
+// accepted literal parses back equal.
+func HarnessC05Bounded() {
+	max := 1 + verif.Choice("max", verif.Param("MAX", 2))
+	b := literal.NewBoundedBuilder(max)
+	n := verif.Choice("len", max+2)
+	var l *literal.Literal
+	var err error
+	isText := verif.Choice("kind", 2) == 0
+	if isText {
+		t := verif.String("t", n)
+		verif.Assume(!earlyTypeDelimiter(t))
+		l, err = b.Build(literal.Text, t)
+	} else {
+		l, err = b.Build(literal.Blob, verif.Bytes("t", n))
+	}
+	verif.Reach("built")
+	verif.Assert((err == nil) == (n <= max), "C05/bounded/build-accepts-up-to-the-bound")
+	if err != nil || l == nil {
+		return
+	}
+	txt := l.String()
+	var l2 *literal.Literal
+	var err2 error
+	if !noPanic("C05/bounded/no-panic", func() { l2, err2 = b.Parse(txt) }) {
+		return
+	}
+	verif.Assert(err2 == nil && l2 != nil, "C05/bounded/parses-back")
+	if err2 == nil && l2 != nil {
+		verif.Assert(sameLiteral(l, l2), "C05/bounded/equal")
+	}
+}
+
 // C05 (c'): text literals long enough to hold the delimiter `"^^type:`.
 func HarnessC05LongText() {
 	n := verif.Param("T", 8) + verif.Choice("extra", 3)
